@@ -35,6 +35,10 @@ def targeted_params():
     ps.append({"x": "dilplan", "xmin": [1, 1], "xmax": [10, 1], "R": 1, "C": 3, "stock": [20, 1], "mode": "linear", "vmax": [10, 5, 15], "scalar_vmax": False, "mint10": 10})
     ps.append({"x": "dilplan", "xmin": [1, 10], "xmax": [10, 1], "R": 4, "C": 6, "stock": [20, 1], "mode": "log", "vmax": [50], "scalar_vmax": True, "mint10": 10})
     ps.append({"x": "dilplan", "xmin": [1, 100], "xmax": [1, 1], "R": 2, "C": 5, "stock": [10, 1], "mode": "log", "vmax": [50, 40, 30, 20, 48], "scalar_vmax": False, "mint10": 20})
+    # the first column is pure stock in every row (no diluent needed there)
+    ps.append({"x": "dilplan", "xmin": [2, 1], "xmax": [20, 1], "R": 1, "C": 3, "stock": [20, 1], "mode": "linear", "vmax": [50], "scalar_vmax": True, "mint10": 10})
+    ps.append({"x": "dilplan", "xmin": [10, 1], "xmax": [10, 1], "R": 1, "C": 1, "stock": [10, 1], "mode": "log", "vmax": [40], "scalar_vmax": True, "mint10": 10})
+    ps.append({"x": "dilplan", "xmin": [5, 1], "xmax": [50, 1], "R": 1, "C": 4, "stock": [50, 1], "mode": "log", "vmax": [48, 30, 40, 25], "scalar_vmax": False, "mint10": 20})
     # impossible requests
     ps.append({"x": "dilplan", "xmin": [1, 10**6], "xmax": [1, 1], "R": 2, "C": 2, "stock": [1, 1], "mode": "linear", "vmax": [20], "scalar_vmax": True, "mint10": 100})
     ps.append({"x": "dilplan", "xmin": [1, 10], "xmax": [2, 1], "R": 2, "C": 2, "stock": [1, 1], "mode": "log", "vmax": [50], "scalar_vmax": True, "mint10": 10})
@@ -79,7 +83,8 @@ def execution_programs(r, recs, n):
         # what stays in every well after the planned serial transfers: an extra transfer to a destination
         # plate must fit into that (it is requested by the caller, not part of the plan's budget)
         left = min(vmax[c] - sum(it["v"][rr] for it in rec["instr"] if it["src"] == c + 1) for c in range(C) for rr in range(R))
-        if r.random() < 0.3 and left >= 1:
+        pure_first = R == 1 and p["xmax"][0] * p["stock"][1] == p["stock"][0] * p["xmax"][1]
+        if (r.random() < 0.3 or pure_first) and left >= 1:
             vd = r.randint(1, left)
             lws.append(gen.mk_plate("assay", min(pr, 26), pc, 0, (vd + 5) * U, [0] * (min(pr, 26) * pc)))
             op["dest"] = 3
